@@ -33,8 +33,11 @@ Cells are strings as handed to `csv.writer`, except that every cell the writer f
 Not modelled (the model answers `not_modelled:…`): LFQ (`--skip_lfq` absent), FragPipe / Sage / DIA-NN quantification
 input, `--experimental_design_file` / `--file_list_file`, `--peptide_protein_map`, runs without `--protein_groups_out`
 (`Cli.runMethod` answers "nothing written" before the quantification is looked at).
-A table whose rows do not carry one cell per header is refused (`ragged`); unreachable from evidence files whose rows
-have the header's number of SILAC / reporter columns.
+A table whose rows do not carry one cell per header is refused (`ragged`); unreachable: the value lists are sized by
+the experiment list and the channel numbers of the FIRST parsed row, exactly as the header lists are — also when the
+`--mq_evidence` files have different SILAC / reporter columns (`C12.quantify` follows the code there: it refuses the
+run where a column loop raises, `silac_index_out_of_range` / `tmt_shape_mismatch`, and otherwise fills the slots as
+the loops do; see Model/C12.lean "evidence files with different SILAC / reporter columns").
 
 Executable, total, Mathlib-free.
 -/
@@ -232,6 +235,25 @@ def renderQuant (ctx : C13.Ctx) (rows : List C13.Row) : Except String (List (Lis
       | .error e => .error e.toString
       | .ok recs => .ok recs
     else .error "ragged"
+
+/-! ## reading a table by header name; the table of a stand-alone quantification run -/
+
+/-- the cell of a written record in the column whose header is `h` (`row[headers.index(h)]`; the header list of a
+    written table is duplicate-free, so this is what `dict(zip(headers, row))[h]` / `csv.DictReader` return) -/
+def cellUnder (hs row : List String) (h : String) : Option String :=
+  if h ∈ hs then row[hs.idxOf h]? else none
+
+/-- the table of a quantification run given by its `C12.Output` — the stand-alone
+    `python -m picked_group_fdr.quantification`, with or without `--experimental_design_file` / `--file_list_file`
+    (`C12.quantifyDesign`): the header list the MaxQuant writer's generators build for the run's experiment list and
+    channel numbers, and one record per written group: `pre g` — the nine base cells and the three annotation cells,
+    which that command copies from the input proteinGroups.txt / the FASTA and C12 does not model — followed by the
+    quantification cells in the writer's order -/
+def outputTable (pre : C12.GroupOut → List String) (seqs : C09.SeqMap) (o : C12.Output) :
+    Except String (List String × List (List String)) :=
+  match quantHeaders (ctxOf o) with
+  | .error e => .error e
+  | .ok hs => .ok (hs, o.groups.map (fun g => pre g ++ quantCells seqs o.experiments o.cutoff g))
 
 /-- everything the quantification of one method computed -/
 structure QuantPart where
